@@ -110,9 +110,9 @@ class Func:
         while stack:
             n = stack.pop()
             yield n
+            if isinstance(n, (ast.FunctionDef, ast.AsyncFunctionDef, ast.ClassDef)):
+                continue  # a nested def is a value here; its body belongs to its own Func
             for ch in ast.iter_child_nodes(n):
-                if isinstance(ch, (ast.FunctionDef, ast.AsyncFunctionDef, ast.ClassDef, ast.Lambda)):
-                    continue
                 stack.append(ch)
 
     def all_nodes(self) -> Iterator[ast.AST]:
